@@ -244,3 +244,8 @@ package avltree
 //@     decreases Cur(iterator) + 1
 
 
+
+//@ -- New: the built-in ordering of an ordered key type is a strict weak order (A-STD: cmp.Compare)
+//@ func New
+//@   modifies nothing
+//@   ensures [C01 C02 C07 C15 C17] fresh(result) && Inv(result) && result.size == 0
